@@ -42,6 +42,31 @@ class Report:
         self.trusted: List[str] = []
         self.analysed: Dict[str, Any] = {}
         self.rules_text: Dict[str, str] = {}
+        self.undecided: List[str] = []
+
+    # -- rule isolation --------------------------------------------------------------
+    def isolated(self):
+        """``with rep.isolated(): rule(model, rep)`` -- a rule that cannot read the code (AnalysisError) or crashes is recorded as undecided and the
+        remaining rules still run.  A definite violation found by another rule is reported (exit 1); with no violation an undecided rule makes the
+        whole check undecided (exit 2).  Obligations a rule recorded before giving up are kept."""
+        rep = self
+
+        class _Iso:
+            def __enter__(self):
+                return self
+
+            def __exit__(self, et, ev, tb):
+                if et is None:
+                    return False
+                if issubclass(et, AnalysisError):
+                    rep.undecided.append(f"{et.__name__}: {ev}")
+                    return True
+                if issubclass(et, Exception):
+                    import traceback
+                    rep.undecided.append(f"checker crashed: {et.__name__}: {ev}\n" + "".join(traceback.format_tb(tb, limit=6)))
+                    return True
+                return False
+        return _Iso()
 
     # -- rule bookkeeping ------------------------------------------------------------
     def rule(self, rule_id: str, text: str):
